@@ -843,6 +843,22 @@ func sameValue2(a, b ssa.Value, d int) bool {
 	return false
 }
 
+// sameIndexExpr: the same SSA value, or the same `x op k` over the same x and constant k.
+func sameIndexExpr(a, b ssa.Value) bool {
+	a, b = stripConv(a), stripConv(b)
+	if a == b {
+		return true
+	}
+	ba, ok1 := a.(*ssa.BinOp)
+	bb, ok2 := b.(*ssa.BinOp)
+	if !ok1 || !ok2 || ba.Op != bb.Op {
+		return false
+	}
+	ka, okA := constInt(ba.Y)
+	kb, okB := constInt(bb.Y)
+	return okA && okB && ka == kb && sameIndexExpr(ba.X, bb.X)
+}
+
 func runR82(c *Ctx) {
 	p := c.P
 	for _, fn := range p.FuncsIn("internal/scolumn") {
@@ -851,6 +867,93 @@ func runR82(c *Ctx) {
 			continue
 		}
 		fnm := fname(fn)
+		// (iv) in a loop that mints cells, every cell stored into the pointer slice under construction is minted
+		// in that iteration: a cell copied from another element of the same slice carries that row's bytes
+		// and that row's null flag
+		for i := range loops {
+			li := loops[i]
+			mints := false
+			eachInstr(fn, func(in ssa.Instruction) {
+				if call, ok := in.(*ssa.Call); ok && inLoop(li, call.Block()) && isFuncNamed(calleeObj(call), rel("internal/strings"), "", "NewPointer") {
+					mints = true
+				}
+			})
+			if !mints {
+				continue
+			}
+			eachInstr(fn, func(in ssa.Instruction) {
+				st, ok := in.(*ssa.Store)
+				if !ok || !inLoop(li, st.Block()) {
+					return
+				}
+				ia, ok := st.Addr.(*ssa.IndexAddr)
+				if !ok {
+					return
+				}
+				sl, ok := ia.X.Type().Underlying().(*types.Slice)
+				if !ok || !isNamed(sl.Elem(), rel("internal/strings"), "Pointer") {
+					return
+				}
+				key := fnm + "|cell source"
+				var bad string
+				seen := map[ssa.Value]bool{}
+				var chk func(v ssa.Value)
+				chk = func(v ssa.Value) {
+					if seen[v] || bad != "" {
+						return
+					}
+					seen[v] = true
+					switch t := v.(type) {
+					case *ssa.Call:
+						if !isFuncNamed(calleeObj(t), rel("internal/strings"), "", "NewPointer") {
+							bad = "the result of " + describe(t)
+						} else if !inLoop(li, t.Block()) {
+							// a cell minted once before the loop and shared by every row (constant columns) is fine
+						}
+					case *ssa.Phi:
+						for _, e := range t.Edges {
+							chk(e)
+						}
+					case *ssa.UnOp:
+						if la, ok := t.X.(*ssa.IndexAddr); ok && t.Op == token.MUL && accessPath(la.X) == accessPath(ia.X) {
+							// fine when the two rows are known to hold the same source value: a dominating test
+							// src[i] == src[j] for the very j copied from (run-length sharing done right)
+							justified := false
+							for _, g := range dominatingGuards(st.Block()) {
+								cmp, ok := g.Cond.(*ssa.BinOp)
+								if !ok || !(cmp.Op == token.EQL && g.Val || cmp.Op == token.NEQ && !g.Val) {
+									continue
+								}
+								idxOf := func(v ssa.Value) ssa.Value {
+									if l, ok := v.(*ssa.UnOp); ok && l.Op == token.MUL {
+										if sa, ok := l.X.(*ssa.IndexAddr); ok {
+											return sa.Index
+										}
+									}
+									return nil
+								}
+								ix, iy := idxOf(cmp.X), idxOf(cmp.Y)
+								if ix == nil || iy == nil {
+									continue
+								}
+								if sameIndexExpr(ix, ia.Index) && sameIndexExpr(iy, la.Index) || sameIndexExpr(iy, ia.Index) && sameIndexExpr(ix, la.Index) {
+									justified = true
+								}
+							}
+							if !justified {
+								bad = "a copy of another element of the same slice (" + describe(la.Index) + ")"
+							}
+						}
+					}
+				}
+				chk(st.Val)
+				if bad != "" {
+					c.bad(key, p.instrPos(st), "a cell of the column under construction is "+bad+" instead of being minted for this row: the row then shows the bytes and the null flag of the row it was copied from")
+				} else {
+					c.okTrivial(key, p.instrPos(st), "minted for this row")
+				}
+			})
+		}
 		eachInstr(fn, func(in ssa.Instruction) {
 			call, ok := in.(*ssa.Call)
 			if !ok || !isFuncNamed(calleeObj(call), rel("internal/strings"), "", "NewPointer") || len(call.Call.Args) != 3 {
@@ -1820,8 +1923,27 @@ func runR98(c *Ctx) {
 
 func init() {
 	register(&Rule{ID: "R99", Name: "PROBE-AGREE", Floor: 2,
-		Text: "in internal/grouper every open-addressing probe loop (a position that starts at hash & mask and is advanced as (pos OP k) & mask) advances by the same operation and the same constant: insertion/lookup and relocation during growth must visit the slots of a collision chain in the same order, otherwise a key displaced by a grow is not found again and equal keys form several groups",
+		Text: "in internal/grouper every open-addressing probe loop (a position that starts at hash & mask and is advanced as (pos OP k) & mask) advances by the same operation and the same constant: insertion/lookup and relocation during growth must visit the slots of a collision chain in the same order, otherwise a key displaced by a grow is not found again and equal keys form several groups; and they start at the same slot: where relocation starts from a field of the entry (the stored hash), every store to that field stores - without narrowing - the very value the insertion probe of the same function starts from",
 		Run:  runR99})
+}
+
+// intSize: width in bits of an integer type (0 when unknown; int/uint/uintptr count as 64).
+func intSize(t types.Type) int {
+	b, ok := t.Underlying().(*types.Basic)
+	if !ok {
+		return 0
+	}
+	switch b.Kind() {
+	case types.Int8, types.Uint8:
+		return 8
+	case types.Int16, types.Uint16:
+		return 16
+	case types.Int32, types.Uint32:
+		return 32
+	case types.Int64, types.Uint64, types.Int, types.Uint, types.Uintptr:
+		return 64
+	}
+	return 0
 }
 
 func runR99(c *Ctx) {
@@ -1832,12 +1954,46 @@ func runR99(c *Ctx) {
 		fn   string
 	}
 	var steps []step
+	// start of each probe loop: the value that is masked to give the first slot
+	type probeStart struct {
+		fn  *ssa.Function
+		src ssa.Value  // conversions stripped
+		fld *types.Var // set when src is a load of a struct field (relocation reads the stored hash)
+		pos string
+	}
+	var starts []probeStart
 	for _, fn := range p.FuncsIn("internal/grouper") {
 		for _, li := range loopsOf(fn) {
 			for _, in := range li.header.Instrs {
 				phi, ok := in.(*ssa.Phi)
 				if !ok {
 					break
+				}
+				isProbe := false
+				for i, e := range phi.Edges {
+					if !inLoop(li, li.header.Preds[i]) {
+						continue
+					}
+					if and, ok := e.(*ssa.BinOp); ok && and.Op == token.AND {
+						if adv, ok := and.X.(*ssa.BinOp); ok && adv.X == ssa.Value(phi) {
+							isProbe = true
+						}
+					}
+				}
+				if isProbe {
+					for i, e := range phi.Edges {
+						if inLoop(li, li.header.Preds[i]) {
+							continue
+						}
+						if and, ok := stripConv(e).(*ssa.BinOp); ok && and.Op == token.AND {
+							src := stripConv(and.X)
+							ps := probeStart{fn: fn, src: src, pos: p.instrPos(and)}
+							if fld, _ := fieldOf(src); fld != nil {
+								ps.fld = fld
+							}
+							starts = append(starts, ps)
+						}
+					}
 				}
 				for i, e := range phi.Edges {
 					if !inLoop(li, li.header.Preds[i]) {
@@ -1864,6 +2020,64 @@ func runR99(c *Ctx) {
 	if len(steps) < 2 {
 		c.undecided("internal/grouper|probe loops", "-", fmt.Sprintf("found %d probe loop(s), expected at least the insertion and the relocation loop", len(steps)))
 		return
+	}
+	// the hash an entry is relocated by is the hash it was inserted (and is looked up) by
+	for _, rs := range starts {
+		if rs.fld == nil {
+			continue
+		}
+		nStores := 0
+		for _, fn := range p.FuncsIn("internal/grouper") {
+			eachInstr(fn, func(in ssa.Instruction) {
+				st, ok := in.(*ssa.Store)
+				if !ok {
+					return
+				}
+				fa, ok := st.Addr.(*ssa.FieldAddr)
+				if !ok {
+					return
+				}
+				stt, ok := deref(fa.X.Type()).Underlying().(*types.Struct)
+				if !ok || stt.Field(fa.Field) != rs.fld {
+					return
+				}
+				nStores++
+				key := fname(fn) + "|stored hash"
+				v := st.Val
+				narrowed := false
+				for {
+					cv, ok := v.(*ssa.Convert)
+					if !ok {
+						if ct, ok := v.(*ssa.ChangeType); ok {
+							v = ct.X
+							continue
+						}
+						break
+					}
+					if intSize(cv.Type()) < intSize(cv.X.Type()) {
+						narrowed = true
+					}
+					v = cv.X
+				}
+				match := false
+				for _, is := range starts {
+					if is.fld == nil && is.fn == fn && is.src == v {
+						match = true
+					}
+				}
+				switch {
+				case narrowed:
+					c.bad(key, p.instrPos(st), fmt.Sprintf("the hash stored in the entry (field %s) is a narrowed copy of the hash the probe starts from: growing relocates entries by the stored bits only, so once the table has more slots than those bits address, a relocated key is no longer on the probe path of its full hash and equal keys form several groups", rs.fld.Name()))
+				case !match:
+					c.bad(key, p.instrPos(st), fmt.Sprintf("the value stored in the entry's field %s is not the value the insertion probe of the same function starts from: relocation (which starts from the stored field) and lookup walk different chains", rs.fld.Name()))
+				default:
+					c.ok(key, p.instrPos(st), "the entry stores the very hash the probe started from; relocation starts from that field")
+				}
+			})
+		}
+		if nStores == 0 {
+			c.undecided(fname(rs.fn)+"|stored hash", rs.pos, "relocation starts from a field that nothing stores")
+		}
 	}
 	for _, s := range steps {
 		key := s.fn + "|probe step"
